@@ -32,6 +32,13 @@ import (
 //   tk              [1] 10 s of virtual time pass and the housekeeping jobs run once (enabled while a delayed
 //                       will of a is pending: a dropped and has not reconnected)
 //   pa:<topic>:<retain>:<qos>  [P] a publishes; topic in {x, w, $SYS/x}
+//   pa:<topic>:<retain>:<qos>:r  [P, v5] the same publish carrying Topic Alias 1 as well (binds the alias on a's current connection)
+//   pa::<retain>:<qos>:u       [1, v5] alias-only publish: empty Topic Name and Topic Alias 1; enabled once a publish of the
+//                       current connection carried the alias. The model keeps two candidate bindings: the topic of the last
+//                       publish that carried the alias (the binding of MQTT 3.3.2.3.4 read literally) and the topic of the
+//                       last such publish that the broker had to accept (valid, not $SYS, write permitted). Which of the two
+//                       the broker resolves the alias to - or whether it treats the alias as unbound and disconnects - is
+//                       not judged; what is judged is the topic the message comes out on (rules R1/R2, keys alias-publish:...)
 //   sb:<filters>    [S] b subscribes QoS0; filters in {x, w, #, +; wide: the two-filter packets "+,w" and "x,+"}
 //   rb              [1] b drops and reconnects resuming its session
 // plus a total budget of N ops per history (quick 4, thorough 5; arg "wide" adds the non-retained / QoS variants of ca and pa; arg "full" = 64 configurations instead of 32); b and c subscribe at QoS 0 so that
@@ -90,7 +97,9 @@ func (c c17Cfg) mayRead(topic string) bool {
 type c17Msg struct {
 	topic   string
 	will    bool
-	delayed bool // will with Will Delay Interval > 0
+	delayed bool   // will with Will Delay Interval > 0
+	alias   bool   // alias-only publish (empty topic name): topic = literal binding, alt = last binding the broker had to accept
+	alt     string // "" = none
 }
 
 func c17Run(arg string) explore.HistFn {
@@ -140,7 +149,11 @@ func c17Run(arg string) explore.HistFn {
 			}
 		}
 		msgs := map[string]c17Msg{} // payload tag -> what was written
-		aConns, aDrops, nPub, nSub, nRb, nTk := 0, 0, 0, 0, 0, 0
+		aConns, aDrops, nPub, nSub, nRb, nTk, nAliasOnly := 0, 0, 0, 0, 0, 0, 0
+		aliasLit, aliasAcc := "", "" // Topic Alias 1 on a's current connection: topic of the last publish carrying it / of the last such publish the broker had to accept
+		permissible := func(topic string) bool {
+			return cfg.mayWrite(topic) && !strings.HasPrefix(topic, "$SYS") && ref.ValidPublishTopic(topic)
+		}
 		aOpen := false
 		aDelayed := false                  // a's current connection carries a will with a Will Delay Interval
 		pendingDelay := false              // a dropped with such a will and has not reconnected; the delay has not passed yet
@@ -166,6 +179,9 @@ func c17Run(arg string) explore.HistFn {
 				return
 			}
 			kind := "publish"
+			if m.alias {
+				kind = "alias-publish"
+			}
 			if m.will {
 				kind = "will"
 			}
@@ -176,8 +192,12 @@ func c17Run(arg string) explore.HistFn {
 			if route == "retained-store" || route == "retained-replay" {
 				verb = "retained"
 			}
-			if p.Topic != m.topic {
-				h.violate("topic-changed:"+kind, "%s received tag %q on %q but it was written to %q", who, tag, p.Topic, m.topic)
+			written := m.topic // the topic the write permission is judged on
+			if m.alias && p.Topic != m.topic && m.alt != "" && p.Topic == m.alt {
+				written = m.alt // the alias resolved to the last accepted binding
+			}
+			if p.Topic != written {
+				h.violate("topic-changed:"+kind, "%s received tag %q on %q but it was written to %q (alt %q)", who, tag, p.Topic, m.topic, m.alt)
 			}
 			count("deliveries-judged")
 			if m.will && strings.ContainsAny(m.topic, "+#") {
@@ -188,8 +208,10 @@ func c17Run(arg string) explore.HistFn {
 				h.violate(kind+":"+verb+"-on-$SYS-topic", "%s received client-written message %v on a $SYS topic (%s)", who, p, route)
 				return
 			}
-			if !cfg.mayWrite(m.topic) {
-				h.violate(kind+":"+verb+"-without-write-permission", "(a,%s,write) is denied but %s received %v (%s)", m.topic, who, p, route)
+			if !cfg.mayWrite(written) {
+				h.violate(kind+":"+verb+"-without-write-permission", "(a,%s,write) is denied but %s received %v (%s)", written, who, p, route)
+			} else if m.alias {
+				count("alias-only-publishes-delivered-on-permitted-topic")
 			}
 			if who == "b" && !cfg.mayRead(p.Topic) {
 				h.violate("read:delivered-without-read-permission:"+route, "(b,%s,read) is denied but b received %v", p.Topic, p)
@@ -208,7 +230,7 @@ func c17Run(arg string) explore.HistFn {
 					h.violate("suback:refused-subscription-delivers:"+route, "b's SUBSCRIBE %q was refused and b holds no granted filter matching %q, but b received %v", deniedFilter, p.Topic, p)
 				}
 			}
-			if who == "b" && cfg.mayRead(p.Topic) && cfg.mayWrite(m.topic) {
+			if who == "b" && cfg.mayRead(p.Topic) && cfg.mayWrite(written) {
 				count("permitted-deliveries-to-b")
 			}
 		}
@@ -253,6 +275,7 @@ func c17Run(arg string) explore.HistFn {
 				}
 				aDelayed = len(p.WillProps) > 0
 				pendingDelay = false
+				aliasLit, aliasAcc = "", "" // alias mappings do not outlive the network connection [MQTT-3.3.2-7]
 				if p.WillFlag {
 					msgs[tag] = c17Msg{topic: p.WillTopic, will: true, delayed: aDelayed}
 				}
@@ -286,16 +309,50 @@ func c17Run(arg string) explore.HistFn {
 				}
 				pendingDelay = false
 			case "pa":
-				nPub++
 				topic, retain, qos := f[1], f[2] == "1", byte(f[3][0]-'0')
-				tag := "a" + strconv.Itoa(nPub)
+				mode := ""
+				if len(f) > 4 {
+					mode = f[4]
+				}
+				if mode == "u" {
+					nAliasOnly++
+				} else {
+					nPub++
+				}
+				tag := "a" + strconv.Itoa(nPub) + "u" + strconv.Itoa(nAliasOnly)
 				msgs[tag] = c17Msg{topic: topic}
 				pk := pub(topic, tag, qos, 0)
 				if qos > 0 {
-					pk.PacketID = uint16(10 + nPub)
+					pk.PacketID = uint16(10 + nPub + 5*nAliasOnly)
 				}
 				pk.Retain = retain
+				switch mode {
+				case "r":
+					pk.Props = ref.Props{{ID: ref.PTopicAlias, Num: 1}}
+					aliasLit = topic
+					if permissible(topic) {
+						aliasAcc = topic
+					}
+					count("publishes-binding-a-topic-alias")
+					if !permissible(topic) {
+						count("publishes-binding-a-topic-alias-to-forbidden-topic")
+					}
+				case "u":
+					pk.Props = ref.Props{{ID: ref.PTopicAlias, Num: 1}}
+					topic = aliasLit
+					msgs[tag] = c17Msg{topic: aliasLit, alias: true, alt: aliasAcc}
+					count("alias-only-publishes")
+					if !permissible(aliasLit) {
+						count("alias-only-publishes-after-refused-binding")
+						if aliasAcc != "" {
+							count("alias-only-publishes-after-refused-rebinding")
+						}
+					}
+				}
 				h.do("a", pk)
+				if mode == "u" && aliasAcc != "" && aliasAcc != aliasLit {
+					topic = aliasAcc // counters below: the topic the message may legitimately have been stored on
+				}
 				if !cfg.mayWrite(topic) {
 					count("publishes-on-write-denied-topic")
 				} else if retain && !strings.HasPrefix(topic, "$SYS") {
@@ -402,6 +459,18 @@ func c17Run(arg string) explore.HistFn {
 					if wide {
 						next = append(next, "pa:x:0:1", "pa:x:1:0", "pa:$SYS/x:0:0", "pa:w:0:0")
 					}
+					if cfg.ver == 5 {
+						next = append(next, "pa:x:1:1:r", "pa:w:1:1:r", "pa:$SYS/x:1:1:r")
+						if wide {
+							next = append(next, "pa:w:0:0:r", "pa:$SYS/x:0:0:r")
+						}
+					}
+				}
+				if cfg.ver == 5 && aliasLit != "" && nAliasOnly < 1 {
+					next = append(next, "pa::1:1:u")
+					if wide {
+						next = append(next, "pa::0:0:u")
+					}
 				}
 			}
 			if nSub < maxS && !h.Cl["b"].Closed() {
@@ -414,7 +483,7 @@ func c17Run(arg string) explore.HistFn {
 				next = append(next, "rb")
 			}
 		}
-		key := h.W.State() + fmt.Sprintf("|%s|%d|%d,%d,%d,%d,%d,%d|%v,%v,%v|%v|%v", hist[0], len(hist), aConns, aDrops, nPub, nSub, nRb, nTk, aOpen, aDelayed, pendingDelay, sortedStrings(keysOf(granted)), sortedStrings(keysOf(refused)))
+		key := h.W.State() + fmt.Sprintf("|%s|%d|%d,%d,%d,%d,%d,%d|%v,%v,%v|%v|%v|%d,%q,%q", hist[0], len(hist), aConns, aDrops, nPub, nSub, nRb, nTk, aOpen, aDelayed, pendingDelay, sortedStrings(keysOf(granted)), sortedStrings(keysOf(refused)), nAliasOnly, aliasLit, aliasAcc)
 		// retained-store read-out by a fresh all-permission client (after the key: not part of the state)
 		h.last = true
 		t := h.W.Connect(world.ConnectPacket("t", 5, true))
@@ -435,6 +504,7 @@ func init() {
 		c.Rep.Assumption("one operation at a time, broker run to quiescence under the deterministic default schedule (sequential histories)")
 		c.Rep.Assumption("permission relation implemented by a test ACL hook over {a,b} x {x,w} x {read,write}: all 16 settings of the four observable bits, plus the wildcard filter-string entry (b,'+',read) (quick: denied; thorough 'full': both), every other triple allowed")
 		c.Rep.Assumption("delayed wills: Will Delay Interval 5 s, Session Expiry 60 s, one step of 10 s virtual time followed by one run of the housekeeping jobs")
+		c.Rep.Assumption("topic aliases: alias 1 on the writer's MQTT 5 connection, bound by publishes on x / w / $SYS/x (also when that publish is refused) and used by one alias-only publish per history; whether a refused publish binds the alias is not judged, only the topic the alias-only message comes out on")
 		c.Rep.Assumption("state = reflective dump of *Server plus pool counters; the retained-store read-out after the last op is not part of the state")
 		if c.Quick() {
 			explore.RunBFS(c, "c17", "n=4", 0, 70*time.Second)
